@@ -3,7 +3,8 @@ from .. import scriptprop, traceprop
 from . import C04seq
 
 ID = "C04"
-RULE = ("concurrent: API-level histories under the controlled scheduler (every schedule with <= 2 preemptions of a catalogue of 2-3 goroutine programs; random programs and schedules) "
+RULE = ("concurrent: step-level traces of the real code under the controlled scheduler, replayed label for label in the Lean transition system Model.SyncMapConc (judge C04conc); "
+        "API-level histories under the controlled scheduler (every schedule with <= 2 preemptions of a catalogue of 2-3 goroutine programs; random programs and schedules) "
         "and native runs (also under the race detector), judged by the Lean driver for linearizability to map[K]V and for the Range predicate; sequential: histories of load/store/loadorstore/loadanddelete/delete/range over 5 keys (small, so that promotion misses >= len(dirty), expunge and unexpunge happen constantly), "
         "the internal layout (read/amended/dirty/misses/expunged/nil) observed through the verif hook after every call; non-trivial = at least one promotion-relevant miss and one delete")
 ASSUMPTIONS = ["data-race freedom in the Go-memory-model sense is not modelled (the model is sequentially consistent over atomic steps)",
@@ -18,11 +19,14 @@ def explore(core, rng, tier, seed, search=False):
     # ---- concurrent half: executions of the real code under the controlled scheduler and natively, judged by the Lean driver
     lim = 2500 if tier == "quick" else 300000
     nr = 600 if tier == "quick" else 30000
-    cmds = [["sched", "map", "exhaustive", 1, lim, 2, "api"], ["sched", "map", "random", rng.randrange(1 << 30), nr, 2, "api"],
-            ["mapstress", rng.randrange(1 << 30), nr]]
-    t = traceprop.explore(core, ID + "conc", cmds, min_events=4, judge="ObjLin",
-                          race_cmds=[["mapstress", rng.randrange(1 << 30), 300 if tier == "quick" else 5000]])
-    return merge(r, t)
+    # (a) step-level traces under the controlled scheduler: judged twice — "ObjLin" (the property: linearizable + Range predicate)
+    #     and "C04conc" (the tie: the execution is, label for label, an execution of the transition system Model.SyncMapConc)
+    cmds = [["sched", "map", "exhaustive", 1, lim, 2], ["sched", "map", "random", rng.randrange(1 << 30), nr, 2]]
+    t = traceprop.explore(core, ID + "conc", cmds, min_events=4, judge="ObjLin", also_judges=("C04conc",))
+    # (b) native executions (API-level events only), also under the race detector
+    t2 = traceprop.explore(core, ID + "native", [["mapstress", rng.randrange(1 << 30), nr]], min_events=4, judge="ObjLin", with_corpus=False,
+                           race_cmds=[["mapstress", rng.randrange(1 << 30), 300 if tier == "quick" else 5000]])
+    return merge(merge(r, t), t2)
 
 
 def merge(r, t):
@@ -37,6 +41,13 @@ def merge(r, t):
     r["summary"]["tags"].update(t["summary"]["tags"])
     r["n_scripts"] += t["n_scripts"]
     r["distinct_nontrivial"] += t["distinct_nontrivial"]
-    r["stats"]["concurrent"] = t["stats"]
+    r["stats"].setdefault("concurrent", []).append(t["stats"])
     r["samples"] = r["samples"][:2] + t["samples"][:2]
     return r
+
+
+def replay(core, obj, path):
+    sc = obj.get("script") or []
+    if any(l.split(" => ")[0].strip() in ("cmap", "cset") for l in sc):
+        return traceprop.replay(core, obj, path, ID, judge="ObjLin", also_judges=("C04conc",))
+    return None
